@@ -711,6 +711,22 @@ impl<T: Tagged> ThreadCtx<T> {
                 (_, Some(r)) => r.receiver_count(),
                 _ => 0,
             }),
+            "isterm" => format!("b:{}", receiver!().is_terminated()),
+            "isdisc" => format!("b:{}", match (&self.s, &self.r) {
+                (Some(s), _) => s.is_disconnected(),
+                (_, Some(r)) => r.is_disconnected(),
+                _ => false,
+            }),
+            "isempty" => format!("b:{}", match (&self.s, &self.r) {
+                (Some(s), _) => s.is_empty(),
+                (_, Some(r)) => r.is_empty(),
+                _ => true,
+            }),
+            "isfull" => format!("b:{}", match (&self.s, &self.r) {
+                (Some(s), _) => s.is_full(),
+                (_, Some(r)) => r.is_full(),
+                _ => false,
+            }),
             "isclosed" => format!("b:{}", match (&self.s, &self.r) {
                 (Some(s), _) => s.is_closed(),
                 (_, Some(r)) => r.is_closed(),
